@@ -7,6 +7,7 @@ import (
 	"go/token"
 	"go/types"
 	"sort"
+	"strconv"
 	"strings"
 
 	"cvcheck/internal/tpl"
@@ -68,6 +69,9 @@ func DumpTpl(c *Ctx) {
 	fmt.Println("ptrs:", sortedKeys(l.Ptrs))
 	fmt.Println("dyns:", sortedKeys(l.Dyns))
 	fmt.Println("cuts:", l.Cuts)
+	for _, p := range sortedKeys(l.Consts) {
+		fmt.Println("strcmp:", p, sortedKeys(l.Consts[p]))
+	}
 }
 
 // ---------- valuations ----------
@@ -159,6 +163,7 @@ type asg struct {
 	err      bool   // SimpleField.Error
 	null     bool   // NestStruct.NullCheckExpr set
 	init     bool   // NestStruct.InitExpr set
+	getter   bool   // the source is a getter call (src.GS0()) instead of a field
 	contents []asg
 }
 
@@ -166,6 +171,9 @@ func (a asg) String() string {
 	s := strings.TrimPrefix(a.kind, "model.")
 	if a.err {
 		s += "!"
+	}
+	if a.getter {
+		s += "()"
 	}
 	if a.kind == "model.NestStruct" {
 		var cs []string
@@ -187,14 +195,17 @@ func (a asg) apply(v *mapVal, path, dstExpr, srcExpr, tag string) {
 	case "model.SimpleField":
 		v.s[path+".LHS"] = dstExpr + ".F" + tag
 		v.b[path+".Error"] = a.err
-		if a.err {
+		switch {
+		case a.err:
 			v.s[path+".RHS"] = "conv(" + srcExpr + ".F" + tag + ")"
-		} else {
+		case a.getter:
+			v.s[path+".RHS"] = srcExpr + ".GF" + tag + "()"
+		default:
 			v.s[path+".RHS"] = srcExpr + ".F" + tag
 		}
 	case "model.SliceAssignment", "model.SliceLoopAssignment", "model.SliceTypecastAssignment":
 		v.s[path+".LHS"] = dstExpr + ".S" + tag
-		v.s[path+".RHS"] = srcExpr + ".S" + tag
+		v.s[path+".RHS"] = a.sliceSrc(srcExpr, tag)
 		v.s[path+".Typ"] = "[]int"
 		v.s[path+".Cast"] = "int"
 	case "model.NestStruct":
@@ -212,6 +223,14 @@ func (a asg) apply(v *mapVal, path, dstExpr, srcExpr, tag string) {
 	}
 }
 
+// sliceSrc is the source expression of a slice copy: a field, or a getter call.
+func (a asg) sliceSrc(srcExpr, tag string) string {
+	if a.getter {
+		return srcExpr + ".GS" + tag + "()"
+	}
+	return srcExpr + ".S" + tag
+}
+
 // ---------- synthetic package ----------
 
 const synthTypes = `
@@ -225,6 +244,18 @@ type NT struct {
 }
 type SrcT NT
 type DstT NT
+func (n NT) GF0() int     { return n.F0 }
+func (n NT) GF1() int     { return n.F1 }
+func (n NT) GF2() int     { return n.F2 }
+func (n NT) GS0() []int   { return n.S0 }
+func (n NT) GS1() []int   { return n.S1 }
+func (n NT) GS2() []int   { return n.S2 }
+func (n SrcT) GF0() int   { return n.F0 }
+func (n SrcT) GF1() int   { return n.F1 }
+func (n SrcT) GF2() int   { return n.F2 }
+func (n SrcT) GS0() []int { return n.S0 }
+func (n SrcT) GS1() []int { return n.S1 }
+func (n SrcT) GS2() []int { return n.S2 }
 func conv(x int) (int, error) { return x, nil }
 `
 
@@ -371,6 +402,33 @@ func (c *Ctx) tplReady(rule string) *tplState {
 		c.R.Undecided(rule, "template-extraction", "expected the NestStruct recursion to be cut at the unfolding bound")
 		return nil
 	}
+	// inventory of text comparisons: the bounded enumeration varies only these; a branch on any other text (a special
+	// case for one type or field name) would be a part of the emitted grammar that no member explores
+	reported := map[string]bool{}
+	for _, p0 := range sortedKeys(s.leaves.Consts) {
+		p := strings.ReplaceAll(p0, ".Contents[]", "") // the same emitter at every nesting level
+		for _, k := range sortedKeys(s.leaves.Consts[p0]) {
+			if reported[p+"\x00"+k] {
+				continue
+			}
+			reported[p+"\x00"+k] = true
+			if strings.HasPrefix(p, "f.Assignments") && !map[string]bool{"C01": true, "C02": true, "C07": true, "C16": true}[strings.SplitN(rule, "-", 2)[0]] {
+				continue // a special case inside an assignment's text concerns the properties about the function body
+			}
+			ok := false
+			switch {
+			case p == "f.DstVarStyle":
+				ok = k == "arg" || k == "return"
+			case p == "f.Receiver", strings.HasSuffix(p, ".InitExpr"), strings.HasSuffix(p, ".NullCheckExpr"), p == "f.PreProcess.Pkg", p == "f.PostProcess.Pkg":
+				ok = k == ""
+			}
+			if !ok {
+				c.R.Check(rule, "template-text-test:"+p+"=="+strconv.Quote(k), "pkg/generator (templates)", false,
+					"the emitter branches on the text of "+p+" being "+strconv.Quote(k)+": a special case the documented shapes do not have and the bounded enumeration does not vary")
+			}
+		}
+	}
+	c.R.Note("tpl_text_tests", len(s.leaves.Consts))
 	c.R.Note("tpl_functions_inlined", sortedKeys(s.x.Funcs))
 	c.R.Note("tpl_leaves", map[string]any{"bools": sortedKeys(s.leaves.Bools), "strings": len(s.leaves.Strs), "slices": sortedKeys(s.leaves.Slices), "pointers": sortedKeys(s.leaves.Ptrs)})
 	return s
